@@ -343,4 +343,13 @@ example : Model.fromCompact (Model.toCompact 0x80ffff) = 0x80ff00 := by
 example (h : Bytes) : Model.checkPoW (2 ^ 255) h 0x1c800001 = .errPow := by
   simp [Model.checkPoW]
 
+/-- the limit is compared on VALUES, not on compact words (round-9 seed C17r9): a non-canonical compact
+    word numerically above the encoded limit still denotes a target below the limit and is accepted -/
+example : Model.toCompact (2 ^ 224 - 1) < 0x1e000001 ∧
+    Model.checkPoW (2 ^ 224 - 1) (List.replicate 32 0) 0x1e000001 = .ok := by
+  have hn : nbytes (2 ^ 224 - 1) = 28 := nbytes_eq (k := 27) (by decide) (by decide)
+  constructor
+  · unfold Model.toCompact; rw [hn]; decide
+  · decide
+
 end BtcVerif.C17
